@@ -288,4 +288,130 @@ theorem stream_delivers (magic sex : Nat) : ∀ {id off : Nat} {q : List Bytes} 
     simp only [srcRun, hstep]
     exact ih (some rs') hid hW hsync
 
+/-! ### in-order delivery when Messages over the size limit are skipped (fix 79d1d2b) -/
+
+/-- the receive state, if any, carries an id different from the ids of all Messages still to come -/
+def Before (o : Option RS) (id : Nat) (q : List Bytes) : Prop :=
+  o = none ∨ ∃ rs, o = some rs ∧ ∀ k, k < q.length → rs.id ≠ (id + k) % W32
+
+/-- receiver and stream agree, with skipping: if the head of the queue is over the limit none of its pieces
+    has reached (or will reach) the state; otherwise as `Sync` -/
+def Sync2 (maxIn : Nat) (o : Option RS) (id off : Nat) : List Bytes → Prop
+  | [] => True
+  | m :: q =>
+    if m.length ≤ maxIn then (off = 0 ∧ Before o id (m :: q)) ∨
+      (0 < off ∧ ∃ rs, o = some rs ∧ rs.id = id ∧ rs.off = off ∧ rs.buf.length = m.length ∧ rs.buf.take off = m.take off)
+    else Before o id (m :: q)
+
+theorem before_tail (o : Option RS) (id : Nat) (m : Bytes) (q : List Bytes) (h : Before o id (m :: q)) :
+    Before o (nextId id) q := by
+  rcases h with h | ⟨rs, h1, h2⟩
+  · exact Or.inl h
+  · refine Or.inr ⟨rs, h1, ?_⟩
+    intro k hk
+    have := h2 (k + 1) (by simp only [List.length_cons]; omega)
+    simp only [nextId, W32] at *
+    omega
+
+theorem sync2_of_before (maxIn : Nat) (o : Option RS) (id : Nat) (q : List Bytes) (h : Before o id q) :
+    Sync2 maxIn o id 0 q := by
+  cases q with
+  | nil => trivial
+  | cons m q =>
+    by_cases hf : m.length ≤ maxIn <;> simp [Sync2, hf, h]
+
+theorem filt_frag_keep (maxIn : Nat) (f : Frag) (fs : List Frag) (h : f.total ≤ maxIn) :
+    (f :: fs).filter (fun f => decide (f.total ≤ maxIn)) = f :: fs.filter (fun f => decide (f.total ≤ maxIn)) := by
+  simp [List.filter_cons, h]
+
+theorem filt_frag_drop (maxIn : Nat) (f : Frag) (fs : List Frag) (h : ¬ f.total ≤ maxIn) :
+    (f :: fs).filter (fun f => decide (f.total ≤ maxIn)) = fs.filter (fun f => decide (f.total ≤ maxIn)) := by
+  simp [List.filter_cons, h]
+
+theorem filt_msg_keep (maxIn : Nat) (m : Bytes) (q : List Bytes) (h : m.length ≤ maxIn) :
+    (m :: q).filter (fun m => decide (m.length ≤ maxIn)) = m :: q.filter (fun m => decide (m.length ≤ maxIn)) := by
+  simp [List.filter_cons, h]
+
+theorem filt_msg_drop (maxIn : Nat) (m : Bytes) (q : List Bytes) (h : ¬ m.length ≤ maxIn) :
+    (m :: q).filter (fun m => decide (m.length ≤ maxIn)) = q.filter (fun m => decide (m.length ≤ maxIn)) := by
+  simp [List.filter_cons, h]
+
+/-- an in-order stream, seen through a receiver that skips the fragments of Messages over its size limit,
+    delivers exactly the payloads within the limit: each once, in order; the others are dropped and do
+    not disturb their neighbours -/
+theorem stream_delivers_fit (magic sex maxIn : Nat) : ∀ {id off : Nat} {q : List Bytes} {fs : List Frag},
+    Stream magic sex id off q fs → ∀ (o : Option RS), id < W32 → (∀ m, m ∈ q → m.length < W32) → q.length ≤ W32 →
+    Sync2 maxIn o id off q →
+    (srcRun o (fs.filter (fun f => decide (f.total ≤ maxIn)))).2 = q.filter (fun m => decide (m.length ≤ maxIn)) := by
+  intro id off q fs hst
+  induction hst with
+  | nil id => intro o _ _ _ _; rfl
+  | @last id off n m q fs h hrest ih =>
+    intro o hid hW hlen hs
+    have hqlen : q.length < W32 := by simp only [List.length_cons] at hlen; omega
+    simp only [Sync2] at hs
+    by_cases hfit : m.length ≤ maxIn
+    · simp only [hfit, if_true] at hs
+      have hsync : Sync o id off (m :: q) := by
+        rcases hs with ⟨h0, hb⟩ | ⟨hpos, rs, h1, h2, h3, h4, h5⟩
+        · refine Or.inl ⟨h0, ?_⟩
+          rcases hb with hb | ⟨rs, hb1, hb2⟩
+          · exact Or.inl hb
+          · refine Or.inr ⟨rs, hb1, ?_⟩
+            have := hb2 0 (by simp)
+            simp only [W32] at *
+            rw [Nat.add_zero, Nat.mod_eq_of_lt hid] at this
+            exact this
+        · exact Or.inr ⟨hpos, rs, m, q, rfl, h1, h2, h3, h4, h5⟩
+      obtain ⟨rs', hstep, hrid⟩ := (srcStep_piece o magic sex id off n m q hsync (by omega) (hW m List.mem_cons_self)).1 h
+      have hkeep : decide ((fragOf magic sex id off n m).total ≤ maxIn) = true := decide_eq_true hfit
+      rw [filt_frag_keep maxIn (fragOf magic sex id off n m) fs hfit, filt_msg_keep maxIn m q hfit]
+      simp only [srcRun, hstep]
+      have hb' : Before (some rs') (nextId id) q := by
+        refine Or.inr ⟨rs', rfl, ?_⟩
+        intro k hk
+        rw [hrid]
+        simp only [nextId, W32] at *
+        omega
+      rw [ih (some rs') (nextId_lt id) (fun x hx => hW x (List.mem_cons_of_mem _ hx)) (by omega)
+        (sync2_of_before maxIn _ _ _ hb')]
+    · simp only [hfit, if_false] at hs
+      have hdrop : decide ((fragOf magic sex id off n m).total ≤ maxIn) = false := decide_eq_false hfit
+      rw [filt_frag_drop maxIn (fragOf magic sex id off n m) fs hfit, filt_msg_drop maxIn m q hfit]
+      exact ih o (nextId_lt id) (fun x hx => hW x (List.mem_cons_of_mem _ hx)) (by omega)
+        (sync2_of_before maxIn _ _ _ (before_tail o id m q hs))
+  | @part id off n m q fs h hn hrest ih =>
+    intro o hid hW hlen hs
+    have hs0 := hs
+    simp only [Sync2] at hs
+    by_cases hfit : m.length ≤ maxIn
+    · simp only [hfit, if_true] at hs
+      have hsync : Sync o id off (m :: q) := by
+        rcases hs with ⟨h0, hb⟩ | ⟨hpos, rs, h1, h2, h3, h4, h5⟩
+        · refine Or.inl ⟨h0, ?_⟩
+          rcases hb with hb | ⟨rs, hb1, hb2⟩
+          · exact Or.inl hb
+          · refine Or.inr ⟨rs, hb1, ?_⟩
+            have := hb2 0 (by simp)
+            simp only [W32] at *
+            rw [Nat.add_zero, Nat.mod_eq_of_lt hid] at this
+            exact this
+        · exact Or.inr ⟨hpos, rs, m, q, rfl, h1, h2, h3, h4, h5⟩
+      obtain ⟨rs', hstep, hsync'⟩ := (srcStep_piece o magic sex id off n m q hsync (by omega) (hW m List.mem_cons_self)).2 (by omega) hn
+      have hkeep : decide ((fragOf magic sex id off n m).total ≤ maxIn) = true := decide_eq_true hfit
+      rw [filt_frag_keep maxIn (fragOf magic sex id off n m) fs hfit]
+      simp only [srcRun, hstep]
+      refine ih (some rs') hid hW hlen ?_
+      simp only [Sync2, hfit, if_true]
+      rcases hsync' with ⟨h0, _⟩ | ⟨hpos, rs, m', q', hq, h1, h2, h3, h4, h5⟩
+      · omega
+      · cases hq
+        exact Or.inr ⟨hpos, rs, h1, h2, h3, h4, h5⟩
+    · have hdrop : decide ((fragOf magic sex id off n m).total ≤ maxIn) = false := decide_eq_false hfit
+      rw [filt_frag_drop maxIn (fragOf magic sex id off n m) fs hfit]
+      refine ih o hid hW hlen ?_
+      simp only [hfit, if_false] at hs
+      simp only [Sync2, hfit, if_false]
+      exact hs
+
 end Muscle.Tunnel
